@@ -115,6 +115,10 @@ func (sm *SeatManager) join(seatID int, p PlayerInfo) (int, error) {
 func (sm *SeatManager) leave(seatID int) error {
 
 	s := sm.getSeat(seatID)
+	if s == nil {
+		return ErrNotFoundSeat
+	}
+
 	if s.Player == nil {
 		return ErrEmptySeat
 	}
